@@ -346,6 +346,10 @@ class CallMixin:
         rts = (case or {}).get('returns', fs.returns)
         rt = parse_type(rts) if rts else TNone
         result = fresh(rt, 'ret_' + fdef.name)
+        if fs.d.get('live_view') and 'self' in bound and result.py is None:
+            # the list returned is a live view of the receiver's internals: remembered with the value, so that a
+            # loop over a local holding it is known to iterate the receiver's own list
+            result.py = ('liveview', bound['self'], fs.key)
         env['result'] = result
         if rt is not TNone:
             self.assume_wf(result)
